@@ -336,3 +336,146 @@ class text_render:
         yield "no-cursor", is_none(r.cursor)
         yield "content-untouched", content_same(old, s)
         yield "cache-coherent", text_inv(s)
+
+
+# ============================================================================================ who establishes the cache invariant
+from urwid.widget.text import TextError  # noqa: E402
+from urwid.util import TagMarkupException  # noqa: E402
+
+PROTOCOLS.setdefault("Markup", type("MarkupProtocol", (Protocol,), {"kind": "Markup", "methods": {}})())
+
+
+@contract("urwid/util.py:decompose_tagmarkup", property=(), assumed=True, alias="opaque-text",
+          notes="stand-in used only through contract_overrides of Text.set_text: returns some (text, attribute runs) pair or raises "
+                "TagMarkupException for an invalid markup; what the pair is belongs to C17")
+class decompose_opaque:
+    params = dict(tm=Opaque("Markup"))
+    result = Tup(TEXTSTR_T, ATTRRUNS)
+    raises = (TagMarkupException,)
+
+
+def _unchanged(old, s):
+    return both(content_same(old, s), opt_eq(s._cache_maxcol, old._cache_maxcol), eq(s._cache_translation, old._cache_translation))
+
+
+@contract(TX + "Text._invalidate", property="C01", replayable=False)
+class text_invalidate:
+    """Forgets the cached translation (and the cached canvases: Widget._invalidate, C06).  Called by every mutator after the
+    content changed, i.e. while the invariant does not hold: it establishes it."""
+    self_shape = TEXT_P
+    params = {}
+    invariant = staticmethod(text_inv)
+    establishes_invariant = True
+    raises = ()
+    modifies = ("_cache_maxcol",)
+
+    def ensures(old, s, a, result):
+        yield "nothing-cached", is_none(s._cache_maxcol)
+        yield "content-untouched", content_same(old, s)
+
+
+@contract(TX + "Text.set_text", property="C01", replayable=False, contract_overrides={"urwid/util.py:decompose_tagmarkup": decompose_opaque})
+class text_set_text:
+    self_shape = TEXT_P
+    params = dict(markup=Opaque("Markup"))
+    invariant = staticmethod(text_inv)
+    raises = (TagMarkupException,)
+    modifies = ("_text", "_attrib", "_cache_maxcol")
+
+    def ensures(old, s, a, result):
+        yield "nothing-cached-for-the-old-text", is_none(s._cache_maxcol)
+        yield "layout-and-modes-untouched", both(*[eq(s.fields[k], old.fields[k]) for k in ("_layout", "_align_mode", "_wrap_mode")])
+
+    def on_raise(old, s, a, exc):
+        yield "invalid-markup-changes-nothing", _unchanged(old, s)
+
+
+def _set_mode(method, field, query, other):
+    @contract(TX + "Text." + method, property="C01", inline=(TX + "Text.layout",), replayable=False)
+    class _m:
+        self_shape = TEXT_P
+        params = dict(mode=MODE)
+        invariant = staticmethod(text_inv)
+        # set_layout calls the mode setters right after replacing the layout object, i.e. while the cache is stale: they do
+        # not need the invariant (they never read the cache) and re-establish it; a failed call leaves it as it found it
+        establishes_invariant = True
+        raises = (TextError,)
+        modifies = (field, "_cache_maxcol")
+
+        def ensures(old, s, a, result):
+            L = PROTOCOLS["Layout"]
+            yield "only-a-mode-the-layout-supports", L.call_quiet(cur(), old._layout, query, {query.split("_")[1]: a.mode})
+            yield "mode-stored-nothing-cached", both(eq(s.fields[field], a.mode), is_none(s._cache_maxcol))
+            yield "rest-untouched", both(*[eq(s.fields[k], old.fields[k]) for k in CONTENT if k != field])
+
+        def on_raise(old, s, a, exc):
+            L = PROTOCOLS["Layout"]
+            yield "only-for-an-unsupported-mode", neg(L.call_quiet(cur(), old._layout, query, {query.split("_")[1]: a.mode}))
+            yield "nothing-changed", _unchanged(old, s)
+
+    _m.__name__ = "text_" + method
+    return _m
+
+
+text_set_align = _set_mode("set_align_mode", "_align_mode", "supports_align_mode", "_wrap_mode")
+text_set_wrap = _set_mode("set_wrap_mode", "_wrap_mode", "supports_wrap_mode", "_align_mode")
+
+
+@contract(TX + "Text.set_layout", property="C01", replayable=False)
+class text_set_layout:
+    """A layout object is given (the `None` default reads the shared module-level StandardTextLayout instance).
+
+    OBSERVATION (not a C01 clause; replayed natively): the layout object is replaced BEFORE the modes are validated, so a
+    call that fails with TextError leaves the new layout in place together with the translation cached from the old
+    one -- `t = Text('hello world foo bar'); t.rows((5,)); t.set_layout('bogus', 'space', other_layout)` raises TextError
+    and afterwards `t.rows((5,))` still answers from the old layout.  rows / render / pack keep agreeing with each other
+    (they share the cache), so the size clauses of C01 are not affected; the cache invariant is therefore NOT claimed on
+    the exceptional exit (no `invariant` here: it is a postcondition of the normal exit only)."""
+    self_shape = TEXT_P
+    params = dict(align=MODE, wrap=MODE, layout=LAYOUT)
+    raises = (TextError,)
+    modifies = ("_layout", "_align_mode", "_wrap_mode", "_cache_maxcol")
+
+    def ensures(old, s, a, result):
+        yield "stored-nothing-cached", both(eq(s._layout, a.layout), eq(s._align_mode, a.align), eq(s._wrap_mode, a.wrap), is_none(s._cache_maxcol))
+        yield "text-untouched", both(eq(s._text, old._text), eq(s._attrib, old._attrib))
+        yield "cache-coherent", text_inv(s)
+
+    def on_raise(old, s, a, exc):
+        L = PROTOCOLS["Layout"]
+        yield "only-for-a-mode-the-new-layout-does-not-support", either(neg(L.call_quiet(cur(), a.layout, "supports_align_mode", dict(align=a.align))),
+                                                                       neg(L.call_quiet(cur(), a.layout, "supports_wrap_mode", dict(wrap=a.wrap))))
+        yield "text-untouched", both(eq(s._text, old._text), eq(s._attrib, old._attrib))
+
+
+def _xc_text_model():
+    """The CPython facts the opaque-text model states (TextStrProtocol), on sample texts in the three encodings' alphabets:
+    a non-empty str has at least one line and the empty one none; decoding valid bytes gives an empty str exactly for
+    empty bytes; count() is non-negative; max() of the line widths is attained and bounds every line."""
+    from urwid.str_util import calc_width
+
+    bad = []
+    samples = ["", "a", "\n", "a\nbc", "\n\n", "中文\nx", "á\r\nb", "x\n", "\x0b", " ", "q\x0e\x0f"]
+    for t in samples:
+        lines = t.splitlines(keepends=False)
+        if (len(lines) >= 1) is not bool(t) and t:
+            bad.append(("splitlines", t))
+        if t and not lines:
+            bad.append(("nonempty-no-lines", t))
+        if t.count("\n") < 0:
+            bad.append(("count", t))
+        for enc in ("utf-8", "euc-jp", "iso8859-1"):
+            try:
+                b = t.encode(enc)
+            except UnicodeEncodeError:
+                continue
+            if bool(b.decode(enc)) is not bool(b):
+                bad.append(("decode", t, enc))
+        if lines:
+            ws = [calc_width(ln, 0, len(ln)) for ln in lines]
+            if max(ws) not in ws or any(w > max(ws) or w < 0 for w in ws):
+                bad.append(("max", t))
+    return "text-str-model-agrees-with-cpython", not bad, f"{len(samples)} texts; mismatches: {bad[:5]}"
+
+
+text_pack.static_checks = [_xc_text_model]
